@@ -31,3 +31,14 @@ func verifTWKBMetadataRoundTrip(hasExt, hasSize, hasBBox, hasIDs bool, kind twkb
 	err := p.parseMetadataHeader()
 	return p.hasExt, p.hasSize, p.hasBBox, p.hasIDs, p.isEmpty, err
 }
+
+// The header sequence every non-empty geometry writer emits (type/precision,
+// metadata, optional extended precision), read back by the real parseHeaders.
+func verifTWKBHeadersRoundTrip(kind twkbGeometryType, precXY int, hasZ, hasM bool, precZ, precM int, hasIDs bool) (twkbGeometryType, int, bool, bool, int, int, bool, bool, bool, CoordinatesType, error) {
+	w := twkbWriter{precXY: precXY, hasZ: hasZ, hasM: hasM, precZ: precZ, precM: precM, hasExt: hasZ || hasM, hasIDs: hasIDs}
+	w.writeTypeAndPrecision(kind)
+	w.writeInitialHeaders()
+	p := newTWKBParser(w.twkbHeaders)
+	err := p.parseHeaders()
+	return p.kind, p.precXY, p.hasZ, p.hasM, p.precZ, p.precM, p.hasIDs, p.hasSize, p.hasBBox, p.ctype, err
+}
